@@ -90,6 +90,8 @@ def hostile_spec(draw, tier):
         "target": draw(st.sampled_from(["file-canary", "http-local", "relative", "file-canary"])),
         "handle": draw(st.sampled_from(["str", "str", "bytes-utf8", "bytes-utf8-bom", "bytes-utf16"])),
         "alt_ns": draw(st.sampled_from([None, None, None, "http://www.innotek.de/VirtualBox-settings", "urn:example:other"])),
+        "trailer": draw(st.sampled_from(["", "", "<!-- trailing comment -->", "<?pi data?>", "\n\n<!-- a --><!-- b -->\n"])),
+        "benign_first": draw(st.booleans()),
         "xml11": draw(st.sampled_from([False, False, True])), "doctype_name": draw(st.sampled_from(["root", "Envelope", "x"])),
     }
 
@@ -160,6 +162,8 @@ def build_document(spec, canary):
         text = text.replace(bx.VBOX_NS, spec["alt_ns"])
         if expected is not None:
             expected = []
+    if spec.get("trailer"):
+        text = text.rstrip("\n") + "\n" + spec["trailer"] + "\n"  # comments / PIs after the root element are well-formed
     if spec["xml11"]:
         text = text.replace('<?xml version="1.0"', '<?xml version="1.1"', 1).replace("<?xml version='1.0'", "<?xml version='1.1'", 1)
     return text, declares, expected
@@ -226,6 +230,14 @@ def check(spec) -> Outcome:
             try:
                 root = os.path.join(d, "x.hdd")
                 os.mkdir(root)
+                if spec.get("benign_first"):
+                    # the same path first holds a harmless descriptor that is loaded once (a cache keyed on the path must
+                    # not let the hostile replacement through)
+                    harmless = bhdd.descriptor_xml({"disk_size": 8, "storages": [{"start": 0, "end": 8, "images": [
+                        {"guid": bhdd.DEFAULT_TOP, "type": "Plain", "file": "a.hds"}]}], "shots": [{"guid": bhdd.DEFAULT_TOP, "parent": bhdd.NULL_GUID}]})
+                    with open(os.path.join(root, "DiskDescriptor.xml"), "w") as f:
+                        f.write(harmless)
+                    HDD(Path(root))
                 data = encode(text, spec["handle"])
                 with open(os.path.join(root, "DiskDescriptor.xml"), "wb" if isinstance(data, bytes) else "w") as f:
                     f.write(data)
